@@ -412,6 +412,11 @@ def obligations(tier, seed):
         for mode, ms, mb in (('single', (1, 1), 0), ('bulk', (2, 2), 0), ('bulk', (3, 2), 0), ('meta', (2, 2), 10)):
             c = dict(grid=gname, seed=seed, level=level, meta_size=list(ms), meta_buffer=mb, mode=mode)
             specs.append(spec(MOD, 'CreatorQueries', 'creator-queries/%s/L%d/%s-m%dx%d' % (gname, level, mode, ms[0], ms[1]), cfg=c, cost=5))
+    # producing a tile through its meta tile really produces it: any missing tile of the meta tile (not only the main tile) triggers
+    # exactly one upstream request that stores all of them (C13 harness, presence flags symbolic, no expiry rule)
+    for ra in (False, True):
+        specs.append(spec('props.C13_expiry', 'Refresh', 'meta-path-creates-every-missing-tile/%s' % ('all4' if ra else 'one'),
+                          cfg=dict(meta=True, with_threshold=False, request_all=ra), cost=20))
     for ts in [(256, 256), (200, 300), (512, 256)]:
         specs.append(spec(MOD, 'SplitterCrop', 'splitter-crop/%dx%d' % ts, cfg=dict(tile_size=list(ts))))
         specs.append(spec(MOD, 'MergerOffsets', 'merger-offsets/%dx%d' % ts, cfg=dict(tile_size=list(ts))))
